@@ -266,7 +266,7 @@ func (hrw *httpReadWriter) Write(ctx context.Context, rpc *Rpc) error {
 		return err
 	}
 
-	r, err := http.NewRequest("POST", "http://"+hrw.writeAddr, bytes.NewBuffer(data))
+	r, err := http.NewRequestWithContext(ctx, "POST", "http://"+hrw.writeAddr, bytes.NewBuffer(data))
 	if err != nil {
 		hrw.cancel()
 		return err
@@ -281,7 +281,11 @@ func (hrw *httpReadWriter) Write(ctx context.Context, rpc *Rpc) error {
 	if err != nil {
 		log.Error().Err(err).Msgf("HttpRpcReadWriter: failed to write")
 		// TODO: retry
-		hrw.cancel()
+		if ctx.Err() == nil {
+			// (a caller that gave up says nothing about the connection, which every
+			// other call to this peer shares)
+			hrw.cancel()
+		}
 		return err
 	}
 
